@@ -61,7 +61,7 @@ def gate_buffer(chk, prog):
         size = binop("Mul", cast(fld(h, "number_of_data_moment_gates"), "u16", "usize"), binop("Div", cast(fld(h, "data_word_size"), "u8", "usize"), C(8, "usize"), "usize"), "usize")
         okk = got[0] == "adt" and fld(got, "header") == h
         enc = fld(got, "encoded_data") if got[0] == "adt" else ("?",)
-        okk = okk and enc[0] == "call" and enc[1] == "alloc::vec::from_elem" and enc[2][0] == C(0, "u8") and strip_ovf(enc[2][1]) == size
+        okk = okk and enc[0] == "call" and enc[1] == "alloc::vec::from_elem" and enc[2][0] == C(0, "u8") and sym.norm_arith(strip_ovf(enc[2][1])) == sym.norm_arith(size)
         chk.ob("VN", GNEW, okk, "gate buffer = vec![0; gates x (word_size / 8)] and the header is stored unchanged" if okk else
                "gate buffer is %s, expected zeroed gates x (word_size/8) bytes" % show(enc)[:300], f2.where(), key="buffer-size")
 
